@@ -21,6 +21,8 @@ extern "C"
     int   __real_madvise(void*, size_t, int);
     void* __real__ZnwmRKSt9nothrow_t(size_t, const std::nothrow_t&);
     void  __real__ZdlPv(void*);
+    std::new_handler __real__ZSt15set_new_handlerPFvvE(std::new_handler);
+    std::new_handler __real__ZSt15get_new_handlerv();
 }
 
 namespace sim
@@ -142,4 +144,19 @@ extern "C" int __wrap_madvise(void* p, size_t len, int advice)
     if (h.contains(p))
         return 0; // content loss is modelled at decommit (garbage on the next commit)
     return __real_madvise(p, len, advice);
+}
+
+// std::set_new_handler / std::get_new_handler as called from the library (new_allocator): scheduling points
+extern "C" std::new_handler __wrap__ZSt15set_new_handlerPFvvE(std::new_handler h)
+{
+    if (sim::g_upstream_hook)
+        sim::g_upstream_hook("new_handler.set");
+    return __real__ZSt15set_new_handlerPFvvE(h);
+}
+
+extern "C" std::new_handler __wrap__ZSt15get_new_handlerv()
+{
+    if (sim::g_upstream_hook)
+        sim::g_upstream_hook("new_handler.get");
+    return __real__ZSt15get_new_handlerv();
 }
